@@ -95,7 +95,12 @@ SeqFails(mon, S, ds, xs, deep) ==
 (***************************************************************************)
 (* C01: end-to-end fidelity (single fault-free attempt).                   *)
 (***************************************************************************)
-MonC01(S) == SeqFails("C01.fidelity", S, Delivered(S, 0), ExpectedFrom(S, StartPos(S)), TRUE) \cup
+MonC01(S) ==
+  \* a stream that the caller ended by cancellation may stop anywhere: then what was delivered must be a prefix
+  (LET ds == Delivered(S, 0)
+       xs == ExpectedFrom(S, StartPos(S))
+       cancelled == Scen(S).attempts[1].end = "cancel" /\ Len(ds) <= Len(xs)
+   IN SeqFails("C01.fidelity", S, ds, IF cancelled THEN Sub(xs, 1, Len(ds)) ELSE xs, TRUE)) \cup
   \* nothing else: the stream ended cleanly
   {F("C01.clean-end", S, [what |-> "stream did not end cleanly", got |-> 0, want |-> 0, k |-> 0, c |-> 0, typ |-> 0]) :
      x \in {y \in {Lines(S, "streamReturn")[i] : i \in 1..Len(Lines(S, "streamReturn"))} : y.att = 0 /\ (~y.returned \/ ~y.res.nil)}}
